@@ -95,10 +95,10 @@ func (e *Explorer) preemptionsBefore(x *Exec, i int) int {
 
 // Run explores everything reachable within the bound.
 func (e *Explorer) Run() {
-	e.explore(nil, 0)
+	e.explore(nil, 0, nil)
 }
 
-func (e *Explorer) explore(prefix []int, depth int) {
+func (e *Explorer) explore(prefix []int, depth int, parent *Exec) {
 	if e.Stopped {
 		return
 	}
@@ -131,7 +131,11 @@ func (e *Explorer) explore(prefix []int, depth int) {
 		x = RunOnce(e.Body, prefix, e.Fine)
 	}
 	if x.Stuck != "" {
-		e.Errors = append(e.Errors, fmt.Sprintf("prefix %v: %s", prefix, x.Stuck))
+		msg := fmt.Sprintf("prefix %v: %s\n  this run: %v", prefix, x.Stuck, x.Trace)
+		if parent != nil {
+			msg += fmt.Sprintf("\n  parent run: %v\n  parent enabled at divergence: %v", parent.Trace, parent.Points[min(len(x.Points), len(parent.Points)-1)])
+		}
+		e.Errors = append(e.Errors, msg)
 		return
 	}
 	if owned {
@@ -161,7 +165,7 @@ func (e *Explorer) explore(prefix []int, depth int) {
 			if d > 3 {
 				d = 3
 			}
-			e.explore(np, d)
+			e.explore(np, d, x)
 			if e.Stopped {
 				return
 			}
